@@ -206,6 +206,16 @@ func (ex *Exec) callModular(fi *FuncInfo, recv *Value, args []Value, st *State, 
 		g := ex.evalClause(c, st, pre, bind)
 		ex.check(st, g, "requires", call, fmt.Sprintf("call:%s/requires#%d", site, i))
 	}
+	if f0 := ex.frames[0]; f0.fn == fi {
+		// recursion: sound only with a measure that strictly decreases and stays non-negative
+		if con.Measure == nil {
+			ex.check(st, tFalse, "termination:recursion", call, "recursive call without a decreases clause")
+		} else {
+			mc := ex.evalClauseIn(con.Measure, pre, pre, bind).scalar()
+			me := ex.evalClauseIn(con.Measure, f0.oldSt, f0.oldSt, f0.bind).scalar()
+			ex.check(st, mkAnd(mkCmp("le", mkInt(mc.Sort, 0), mc), mkCmp("lt", mc, me)), "termination:recursion", call, "measure")
+		}
+	}
 	for i, c := range con.PanicsWhen {
 		g := ex.evalClause(c, st, pre, bind)
 		ex.check(st, mkNot(g), "callee-panics", call, fmt.Sprintf("call:%s/panics#%d", site, i))
